@@ -128,6 +128,8 @@ STAGES.update({
                                                         SRCS='<<"seeker", "chunk1", "chunk3", "chunk57", "reader", "chunk7">>')),
             ('part-headers', 'MimeBuild', cfg(MAXP='2', MAXE='1', MAXA='1', ENCS='{"qp"}', CCS='<<"crlf">>', PDESCS='{"", "plain", "long", "utf8", "longutf8"}',
                                               FDESCS='{"", "long", "utf8", "longutf8"}', FNAMES='{"", "long", "utf8", "dotted"}')),
+            # quoted-printable lines that start with "From " at the length limit
+            ('qp-from-lines', 'MimeBuild', cfg(MAXP='2', MAXE='0', MAXA='1', ENCS='{"qp"}', FENCS='{"", "qp"}', CCS='<<"fromlong", "from", "len76">>', ROTS='{0, 1, 2}')),
             # the header sections of messages with a PGP/MIME type are generated by the library too
             ('pgp-types', 'MimeBuild', cfg(MAXP='2', MAXE='0', MAXA='1', ENCS='{"qp"}', CCS='<<"crlf">>', PGPS='{"encrypted", "signed"}', STYLES='{"", "set"}', BOUNDARIES='{"", "len42"}')),
             # boundaries of the caller of every length class: the multipart Content-Type field must stay foldable
